@@ -662,6 +662,7 @@ theorem mapperNode_spec (f : StatsFile) (lk : Lookup) (query : Matrix) (m : Nat)
     ∃ names nd, mapperNode f lk query m p = .ok nd ∧ nd.query.geneIds = names ∧
       nd.reference.geneIds = names ∧
       (∀ g, g ∈ names ↔ g ∈ specGenes f.tree lk query.geneIds m p) ∧ names.Nodup ∧
+      (∀ g ∈ names, g ∈ f.colNames ∧ g ∈ query.geneIds) ∧
       leavesUnder f.tree p = .ok nd.reference.cellIds ∧ nd.query.cellIds = query.cellIds ∧
       nd.reference.data.length = nd.reference.cellIds.length ∧
       nd.query.data.length = query.data.length ∧
@@ -708,7 +709,7 @@ theorem mapperNode_spec (f : StatsFile) (lk : Lookup) (query : Matrix) (m : Nat)
     cases h1
     rw [hsg, hm2]
     exact h3)
-  refine ⟨names, { query := qd, reference := rd }, ?_, hqg, hrg, hmem, hnd, ?_, hqc, ?_, hql, ?_, ?_⟩
+  refine ⟨names, { query := qd, reference := rd }, ?_, hqg, hrg, hmem, hnd, hinR, ?_, hqc, ?_, hql, ?_, ?_⟩
   · unfold mapperNode
     simp only [hmeans, hcache]
     unfold assembleData
